@@ -13,9 +13,11 @@ import BGV
 #print axioms BGV.C01_resize_keeps
 #print axioms BGV.C01_adjacencyMatrix
 #print axioms BGV.C01_inDegree
+#print axioms BGV.C01_degree_vectors
 
 -- C02
 #print axioms BGV.C02_adjacencyMatrix
+#print axioms BGV.C02_degrees
 #print axioms BGV.C02_inv_reachable
 #print axioms BGV.C02_refines
 #print axioms BGV.C02_symmetric
